@@ -246,6 +246,74 @@ func (e *cacheEngine) histRun(be string, h []histOp, line string, watchAlias boo
 	return res
 }
 
+// histSoak — LONG histories on one encoder per back end. The histories of histLines are short (a handful of
+// operations); state that only ACCUMULATES across many aborted calls (a counter that an aborted call leaves
+// incremented, a pool or a table that fills up) shows only after hundreds of them. One encoder per back end
+// goes through thousands of writer histories that end in a panic raised 1..8 structures deep (recovered by
+// the caller, followed by Clear); every 25 histories and at the end a fixed nested value is written through
+// that encoder and must come out exactly as from a NEW encoder (the property itself: "after ANY sequence of
+// other encode and decode calls, including on a reused, cleared encoder").
+func (e *cacheEngine) histSoak() {
+	ctx := e.ctx
+	ref := func(enc *ttlv.Encoder) {
+		var nest func(d int, x *ttlv.Encoder)
+		nest = func(d int, x *ttlv.Encoder) {
+			x.Integer(0x42000A, int32(d))
+			if d < 6 {
+				x.Struct(0x420008+d, func(y *ttlv.Encoder) { nest(d+1, y) })
+			}
+			x.TextString(0x420055, "soak")
+		}
+		enc.Struct(0x42000F, func(x *ttlv.Encoder) { nest(0, x) })
+	}
+	n := ctx.N(1500, 20000)
+	for _, be := range cacheFormats {
+		fresh := histNewEncoder(be)
+		ref(&fresh)
+		want := append([]byte{}, fresh.Bytes()...)
+		enc := histNewEncoder(be)
+		leaked := 0
+		for k := 1; k <= n; k++ {
+			d := 1 + (k*7+k/9)%8
+			leaked += d
+			line := fmt.Sprintf("# cache.soak %s [%d histories, each: open 1..8 nested structures and panic (recovered); Clear] then the reference value", be, k)
+			ctx.current = line
+			func() {
+				defer func() { recover() }()
+				var open func(left int, x *ttlv.Encoder)
+				open = func(left int, x *ttlv.Encoder) {
+					x.Integer(0x42000A, int32(left))
+					if left == 0 {
+						panic(histAbort{})
+					}
+					x.Struct(0x420008, func(y *ttlv.Encoder) { open(left-1, y) })
+				}
+				open(d, &enc)
+			}()
+			enc.Clear()
+			if k%25 != 0 && k != n {
+				continue
+			}
+			var got []byte
+			_, p := guard("encode on the reused encoder", func() int {
+				ref(&enc)
+				got = append([]byte{}, enc.Bytes()...)
+				return 0
+			})
+			enc.Clear()
+			ctx.Res.Count("cache.soak.checkpoints." + be)
+			if p != "" || !bytes.Equal(got, want) {
+				what := "gives " + truncate(hexOrDash(got), 40)
+				if p != "" {
+					what = "panics: " + truncate(p, 80)
+				}
+				e.violate("hist-reuse", "cache:reuse-after-many-panics:"+be, fmt.Sprintf("after %d aborted (recovered) writer histories (structures left open: %d in all), each followed by Clear, the %s encoder %s where a new encoder gives %s", k, leaked, be, what, truncate(hexOrDash(want), 40)), line)
+				break
+			}
+		}
+	}
+}
+
 func hexOrDash(b []byte) string {
 	if len(b) == 0 {
 		return "-"
